@@ -119,6 +119,61 @@ class AutoNorm(Harness):
                 Check("cross_product_of_totals", cross.data, expc)]
 
 
+class ZeroWeightBin(Harness):
+    """zero total weight in one bin of one term: the estimate of that bin must not be a finite number (0/0, x/0 are outside
+    the real-number model): concrete sentinels at engine-chosen positions"""
+
+    functions = (NormalisedCounts.sample_patch_sum, CorrFunc.sample)
+    modules = ()
+    xval = False
+
+    def __init__(self):
+        self.name = "estimator.zero_weight_bin"
+        self.bounds = "2 bins x 3 patches of concrete numbers; the term (dd/dr/rr), the bin and auto/cross with zero weights chosen by the engine"
+
+    def make_inputs(self, eng):
+        return {"term": eng.choose(3, "term"), "bin": eng.choose(2, "bin"), "auto": eng.choose(2, "auto"), "est": eng.choose(2, "estimator")}
+
+    def concrete_inputs(self, m, inp):
+        return dict(inp)
+
+    def body(self, inp):
+        B, P = 2, 3
+        auto = bool(inp["auto"])
+        rng = np.random.default_rng(7)
+        binning = conc_binning(B)
+        terms = ("dd", "dr", "rr") if inp["est"] == 0 else ("dd", "dr")
+        zero_term = ("dd", "dr", "rr")[inp["term"]]
+        if zero_term not in terms:
+            zero_term = "dr"
+        arrs = {}
+        for t in terms:
+            c = rng.integers(1, 9, (B, P, P)).astype(float)
+            if auto:
+                c = np.triu(c)
+            w1 = rng.integers(1, 9, (B, P)).astype(float)
+            w2 = w1 if auto else rng.integers(1, 9, (B, P)).astype(float)
+            if t == zero_term:
+                w1 = w1.copy()
+                w1[inp["bin"]] = 0.0
+                c[inp["bin"]] = 0.0
+                if auto:
+                    w2 = w1
+            arrs[t + "_c"], arrs[t + "_w1"] = c, w1
+            if not auto:
+                arrs[t + "_w2"] = w2
+        with np.errstate(all="ignore"):
+            cf = CorrFunc(**{t: build_counts(arrs, t, binning, auto) for t in terms})
+            cd = cf.sample()
+            term = getattr(cf, zero_term).sample_patch_sum()
+        b, ob = inp["bin"], 1 - inp["bin"]
+        T = {t: normalised(arrs, t, ob, auto) for t in terms}
+        exp = (T["dd"] - 2 * T["dr"] + T["rr"]) / T["rr"] if "rr" in terms else T["dd"] / T["dr"] - 1
+        return [Check("term_of_empty_bin_not_finite", cond=bool(not np.isfinite(term.data[b]) and not np.any(np.isfinite(term.samples[:, b])))),
+                Check("estimate_of_empty_bin_not_finite", cond=bool(not np.isfinite(cd.data[b]))),
+                Check("other_bin_unaffected", cd.data[ob], exp)]
+
+
 class NzFormula(Harness):
     functions = (RedshiftData.from_corrdata,)
     modules = CORR_MODULES
@@ -218,6 +273,7 @@ def harnesses(tier):
         hs.append(Estimator(("dr", "rr"), True, 1, 5))
     hs.append(Estimator(("dr", "rr"), False, 1, 2, wrong="sign"))
     hs.append(AutoNorm(2, 3))
+    hs.append(ZeroWeightBin())
     if tier == "thorough":
         hs.append(AutoNorm(1, 5))
     for ref, unk in ((False, False), (True, False), (False, True), (True, True)):
